@@ -7,8 +7,8 @@ import numpy as np
 import gen
 from core import fr, w_rats, w_bool, p_ints, p_rats, cmp_exact, cmp_budget, call_impl
 
-RULE = ("exhaustive: every sequence over the 5-level alphabet {-2,-1,0,1,2} up to length 7 (quick) / 8 (thorough), plus 3- and "
-        "7-level alphabets (thorough); random real-valued and plateau-rich series up to length 5000; ptype in {all,max,min}; "
+RULE = ("exhaustive: every sequence over the 5-level alphabet {-2,-1,0,1,2} up to length 6 (quick, plus the 3-level alphabet up to length 8) / 8 (thorough, plus 3- and "
+        "7-level alphabets); random real-valued and plateau-rich series up to length 5000; ptype in {all,max,min}; "
         "get_n_cyc_array opt=all, start in {origin, peak}; float/int dtype and lists. All outputs are indices or exact "
         "half-integers: compared exactly. distinct = hash of the series; non-trivial = length >= 3 and not constant")
 TIE = "correspondence (hand model Model/Peaks.lean; exhaustive over small alphabets)"
@@ -114,7 +114,7 @@ def run(ctx):
     from eqsig.fns import peaks_and_crossings as pc
     rng = ctx.rng
     if ctx.tier == 'quick':
-        spaces = [((-2, -1, 0, 1, 2), 7)]
+        spaces = [((-2, -1, 0, 1, 2), 6), ((-1, 0, 1), 8)]
         n_random = 400
         maxlen_r = 600
     else:
